@@ -78,6 +78,13 @@ func corpus() []corpusCase {
 	add("kept-part-three-deep", CfgD{}, k0, k1, k2, k3)
 	p3 := FileD{Path: "f3.thrift", Decls: []DeclD{{Kind: "struct", Name: "S0", Comment: "// @preserve"}}}
 	add("preserved-three-deep", CfgD{}, k0, k1, k2, p3)
+	// seeded m6: every definition is used, nothing can be trimmed; the AST must come back resolved
+	u0 := FileD{Path: "f0.thrift", Includes: []int{1},
+		Decls: []DeclD{strct("S0", FieldD{Name: "f0", ID: 1, Ty: &TyD{K: "base", Base: "i64"}}),
+			strct("S1", FieldD{Name: "f0", ID: 1, Ty: ref(1, "S2")}, FieldD{Name: "f1", ID: 2, Ty: &TyD{K: "list", Val: ref(1, "S2")}})},
+		Services: []SvcD{{Name: "V0", ExtFile: -1, Fns: []FnD{{Name: "get", Args: []FieldD{{Name: "a0", ID: 1, Ty: ref(0, "S0")}}, Ret: ref(0, "S1")}}}}}
+	u1 := FileD{Path: "f1.thrift", Decls: []DeclD{strct("S2", FieldD{Name: "f0", ID: 1, Ty: &TyD{K: "base", Base: "i64"}})}}
+	add("fully-used-two-files", CfgD{}, u0, u1)
 	return out
 }
 
